@@ -1,4 +1,5 @@
 import UtilModel.Core.LTSHash
+import UtilModel.Core.LTSComplete
 import UtilModel.CContainer.Props
 /-!
 # CContainer — end-to-end transfer
@@ -14,4 +15,37 @@ theorem C15_accepted (cap fuel : Nat) (h : List CContainer.Obs)
   acceptedH_satisfies CContainer.model (fun h => CContainer.monC15.accepts h = true)
     CContainer.C15_obs cap fuel h ha
 
+/-! ## completeness of the candidate lists
+
+`complete_ccontainer`: every enabled internal event is in `cands s` and every enabled observable
+event is in `evsOf s o`.
+
+There is no `reject_sound_ccontainer` here: `rejectH_sound` needs `LawfulBEq St`, and the state
+equality the checker uses (`instBEqSt`, equality of `St.norm`: channel ids up to closed/open) is a
+deliberate quotient, not the real equality. The REJECT direction for this model needs a version of
+`rejectH_sound` for an equivalence that is a bisimulation on well-formed states. -/
+
+theorem CContainer.mem_internalCands (n t : Nat) (e : CContainer.Ev) (ht : t < n)
+    (he : e ∈ [CContainer.Ev.opCS t, .waitCS t, .wakeCS t, .ctxTake t, .errTake t]) :
+    e ∈ CContainer.internalCands n := by
+  unfold CContainer.internalCands
+  exact List.mem_flatMap.mpr ⟨t, List.mem_range.mpr ht, he⟩
+
+theorem CContainer.Ev.obs_ev (e : CContainer.Ev) (o : CContainer.Obs) (h : e.obs = some o) : o.ev = e := by
+  cases e <;> simp [CContainer.Ev.obs] at h <;> subst h <;> rfl
+
+theorem complete_ccontainer : CContainer.model.Complete := by
+  refine ⟨?_, fun _ e _ o _ ho => by simp [CContainer.model, CContainer.Ev.obs_ev e o ho]⟩
+  intro s e s' hs ho
+  show e ∈ CContainer.internalCands s.th.length
+  change CContainer.step s e = some s' at hs
+  change e.obs = none at ho
+  cases e <;> simp [CContainer.Ev.obs] at ho <;> simp only [CContainer.step] at hs
+  all_goals
+    split at hs <;> try simp at hs
+    all_goals
+      rename_i hth
+      have hlt := (List.getElem?_eq_some_iff.mp hth).1
+      refine CContainer.mem_internalCands _ _ _ hlt ?_
+      simp
 end UtilModel
